@@ -85,6 +85,12 @@ def _graph_state_scenarios(states, pid, rng, limit, folds=(False,), costs=False)
     return scs
 
 
+def _is_open(s) -> bool:
+    b = s["b"]
+    vals = [v for _, v in pitgen.fun_items(b)] if not isinstance(b, dict) else list(b.values())
+    return all(v > 5 for v in vals)
+
+
 def _pattern_scenarios(states, pid, rng, d0s=(1, 2, 3)) -> List[Dict[str, Any]]:
     scs = []
     for s in states:
@@ -287,6 +293,14 @@ def run_family(pid: str, tier: str, seed: int, replay=None) -> int:
             for sc in vs:
                 sc["src"] = "tlc-values"
             scs += vs
+            # wide kernels (K = 5, 7, 9: three / four dilation levels) x EVERY value assignment of the dilation parameters
+            gv = pitgen.dump_states("MaskAlgebraMC", "MaskAlgebraMC_values_gamma", R)
+            if quick:                  # the open receptive field always, the once-cut one for a seeded half
+                gv = [v for v in gv if _is_open(v) or rng.random() < 0.5]
+            gs = _pattern_scenarios(gv, pid, rng, d0s=(1,))
+            for sc in gs:
+                sc["src"] = "tlc-gamma-values"
+            scs += gs
             # non-causal layouts (padding='same'; explicit symmetric ConstantPad1d): C01 covers them while no tap is pruned
             # (ExportEquivalentSameOpen); the design config below shows that with a pruned tap a re-centred kernel reads
             # other samples - the reason why the property restricts time pruning to causally padded layers
